@@ -40,6 +40,8 @@ CHECKS = {
          "Every file-system / pickling operation of a save or load (observed and failed in-process through an audit hook) is taken as the failure point for both formats, backups on/off, over a corpus of models and sequences of saves; after every attempt each slot (path, _BAK1.._BAK3) is classified by reading it back and TLC judges LastGoodSafe / GenerationsOrdered / GenerationsKept / NoPartialZip / SessionUsable / NoHalfLoadedModel on the recorded slot tables. The MxSave model (rotation, directory and zip write, move, cleanup, load) is model-checked exhaustively with a failure enabled at every step, and its histories are replayed on the code.", "§4 C14"),
  "C16": ("model_checking", "TLC model check of MxActions (get_calcsteps transcribed, calc/paste/clear on an abstract cache) over all DAGs x targets x steps x topological orders; every TLC-enumerated case executed on the real library and judged by the trace spec",
          "All DAGs on <= 4 (thorough 5) nodes x all target sets x step sizes x topological orders are model-checked; every case TLC enumerates is built as real cells, generate_actions/execute_actions are run with formula executions counted by sys.monitoring, and TLC judges the five predicates on the recorded data (plus DRIFT when the plan differs from the transcribed planner).", "§4 C16"),
+ "C18": ("model_checking", "TLC model check of MxIOSpec (ReferenceManager / IOManager bookkeeping per operation) + trace validation of random and TLC-enumerated histories of new_pandas/new_module, assignment, deletion, update_pandas, base changes, space deletion, close, write/read",
+         "The bookkeeping of `_valid_to_refs` and `IOManager.ios` is modelled operation by operation and model-checked (complete reachable space for the small instances, all 3-4 operation histories for the full vocabulary) with SpecsEqBoundValues / NoOrphanSpec / LocationsUnique / RejectedLeavesNothing / SanityChecks / SavedSpecsRoundTrip as invariants; random and model-enumerated histories over two models and a base/sub pair of spaces are executed on the real library with real pandas/module values (identified by identity), and TLC judges the projected specs, manager table and bound references after every operation; saved and re-read contents are compared by TLC.", "§4 C18"),
  "C19": ("model_checking", "TLC model check of MxRegistry (System.new_model / rename_model / _rename_samename / close_model / reader transcribed) + trace validation of random and TLC-enumerated histories over several open models",
          "The registry algorithm (auto names, backup renaming with its counter, refused and silent renames, close, read under a taken name) is model-checked exhaustively on small constants with NamesUniqueAndCurrent / HandlesFollow / NoModelDropped / CloseRemovesExactlyOne / Isolation as invariants; every history of the replay configuration and seeded random histories (new/read/rename with and without rename_old/close/edit/evaluate on concurrently open models, one linked by a reference) are executed on the real library and judged by the same module as a trace specification; exact backup names are compared as DRIFT only.", "§4 C19"),
  "C13": ("model_checking", "trace validation: every handle ever obtained is dead or is the current object at an existing place; no held value or graph node of a non-existing element",
